@@ -1446,6 +1446,347 @@ fn real_bundle_many(mode: &Mode, proj: &str, leaves: &[String], modules: &[(Stri
 }
 
 // ------------------------------------------------------------------------------------------
+// `.luaurc` runs: modes with use_luau_configuration on, the alias map read from `.luaurc` files of
+// the layout by the real `process` (WorkerTree::add_source in a chosen order + process)
+
+#[derive(Clone, Debug)]
+struct RcRun {
+    proj: String,
+    current: Mode,
+    target: Mode,
+    leaves: Vec<String>,
+    /// (directory of the `.luaurc` - "" is the working directory -, its raw aliases without `@`)
+    rcs: Vec<(String, Vec<(String, String)>)>,
+    /// (requiring file, require literal)
+    sources: Vec<(String, String)>,
+    kind: &'static str,
+}
+
+fn first_require_argument(code: &str) -> Option<String> {
+    use darklua_core::nodes::{Arguments, Expression, LastStatement};
+    let block = darklua_core::Parser::default().parse(code).ok()?;
+    if let LastStatement::Return(ret) = block.get_last_statement()? {
+        for e in ret.iter_expressions() {
+            if let Expression::Call(call) = e {
+                match call.get_arguments() {
+                    Arguments::Tuple(t) => {
+                        for v in t.iter_values() {
+                            if let Expression::String(st) = v {
+                                return Some(String::from_utf8_lossy(st.get_value()).into_owned());
+                            }
+                        }
+                    }
+                    Arguments::String(st) => return Some(String::from_utf8_lossy(st.get_value()).into_owned()),
+                    _ => {}
+                }
+            }
+        }
+    }
+    None
+}
+
+impl RcRun {
+    fn to_json(&self, order: &[usize]) -> Value {
+        json!({"op": "rcrun", "proj": self.proj, "current": mode_to_json(&self.current), "target": mode_to_json(&self.target),
+               "files": self.leaves, "luaurc": self.rcs.iter().map(|(d, m)| json!([d, m.iter().map(|(k, v)| json!([k, v])).collect::<Vec<_>>()])).collect::<Vec<_>>(),
+               "sources": self.sources.iter().map(|(p, r)| json!([p, r])).collect::<Vec<_>>(), "order": order})
+    }
+
+    fn from_json(v: &Value) -> Option<(RcRun, Vec<usize>)> {
+        let pairs = |x: &Value| -> Option<Vec<(String, String)>> { Some(x.as_array()?.iter().filter_map(|e| Some((e[0].as_str()?.to_owned(), e[1].as_str()?.to_owned()))).collect()) };
+        let run = RcRun {
+            proj: v["proj"].as_str()?.to_owned(),
+            current: mode_from_json(&v["current"])?,
+            target: mode_from_json(&v["target"])?,
+            leaves: v["files"].as_array()?.iter().filter_map(|f| f.as_str().map(str::to_owned)).collect(),
+            rcs: v["luaurc"].as_array()?.iter().filter_map(|e| Some((e[0].as_str()?.to_owned(), pairs(&e[1])?))).collect(),
+            sources: pairs(&v["sources"])?,
+            kind: "replay",
+        };
+        let order = v["order"].as_array()?.iter().filter_map(|i| i.as_u64().map(|i| i as usize)).collect();
+        Some((run, order))
+    }
+
+    /// the `.luaurc` that governs a requiring file: the nearest one walking up from its directory
+    fn nearest_rc(&self, source: &str) -> Option<&(String, Vec<(String, String)>)> {
+        let mut dir = match source.rfind('/') {
+            Some(0) => "/".to_owned(),
+            Some(i) => source[..i].to_owned(),
+            None => String::new(),
+        };
+        loop {
+            if let Some(rc) = self.rcs.iter().find(|(d, _)| *d == dir) {
+                return Some(rc);
+            }
+            if dir.is_empty() || dir == "/" {
+                return None;
+            }
+            dir = match dir.rfind('/') {
+                Some(0) => "/".to_owned(),
+                Some(i) => dir[..i].to_owned(),
+                None => String::new(),
+            };
+        }
+    }
+
+    /// documented location of the directory an alias-prefixed require starts from
+    fn documented_base(&self, source: &str, name: &str) -> Option<Loc> {
+        let from_rc = self.nearest_rc(source).and_then(|(dir, entries)| {
+            entries.iter().find(|(k, _)| format!("@{}", k) == name).map(|(_, v)| walk(&walk(&cwd(), dir), v))
+        });
+        let map = match &self.current {
+            Mode::Path { sources, .. } => sources,
+            Mode::Luau { aliases } => aliases,
+        };
+        let from_config = map.iter().find(|(k, _)| k == name).map(|(_, v)| walk(&walk(&cwd(), &self.proj), v));
+        match &self.current {
+            // luau mode: the `.luaurc` is looked at before the `aliases` of the darklua configuration
+            Mode::Luau { .. } => from_rc.or(from_config),
+            Mode::Path { .. } => from_config.or(from_rc),
+        }
+    }
+
+    fn rc_wire(&self, source: &str) -> String {
+        match self.nearest_rc(source) {
+            None => "none".to_owned(),
+            Some((dir, entries)) => format!("{}/{}", hx(dir), map_wire(entries)),
+        }
+    }
+}
+
+/// process the sources of a run in the given order with one WorkerTree; the require argument
+/// written for each source (indexed as `run.sources`)
+fn real_rc_run(run: &RcRun, order: &[usize]) -> Vec<Result<String, String>> {
+    let n = run.sources.len();
+    let run = run.clone();
+    let order = order.to_vec();
+    std::panic::catch_unwind(move || {
+        let resources = Resources::from_memory();
+        for f in &run.leaves {
+            resources.write(f, &format!("return {:?}", f)).unwrap();
+        }
+        for (dir, entries) in &run.rcs {
+            let body: Vec<String> = entries.iter().map(|(k, v)| format!("{:?}: {:?}", k, v)).collect();
+            let path = if dir.is_empty() { ".luaurc".to_owned() } else if dir == "/" { "/.luaurc".to_owned() } else { format!("{}/.luaurc", dir) };
+            resources.write(&path, &format!("{{ \"aliases\": {{ {} }} }}", body.join(", "))).unwrap();
+        }
+        for (path, req) in &run.sources {
+            resources.write(path, &format!("return require({:?})", req)).unwrap();
+        }
+        let on = |m: &Mode| mode_json5(m).replace("use_luau_configuration: false", "use_luau_configuration: true");
+        let text = format!("{{ generator: 'dense', rules: [ {{ rule: 'convert_require', current: {}, target: {} }} ] }}", on(&run.current), mode_json5(&run.target));
+        let config: darklua_core::Configuration = match json5::from_str(&text) {
+            Ok(c) => c,
+            Err(e) => return vec![Err(format!("configuration {}", e)); n],
+        };
+        let config = config.with_location(&run.proj);
+        let mut tree = darklua_core::WorkerTree::default();
+        for &i in &order {
+            tree.add_source(&run.sources[i].0, Some(PathBuf::from(format!("rc-output/{}.lua", i))));
+        }
+        let options = darklua_core::Options::new(&run.sources[order[0]].0).with_configuration(config);
+        let _ = tree.process(&resources, options);
+        (0..n)
+            .map(|i| {
+                if !order.contains(&i) {
+                    return Err("not processed".to_owned());
+                }
+                let code = resources.get(format!("rc-output/{}.lua", i)).map_err(|_| "no output".to_owned())?;
+                first_require_argument(&code).ok_or_else(|| "no require call left".to_owned())
+            })
+            .collect()
+    })
+    .unwrap_or_else(|_| vec![Err("panic".to_owned()); n])
+}
+
+/// Judge one source of a run. Returns (oracle failure, correspondence failure).
+fn judge_rc_source(run: &RcRun, i: usize, arg: &Result<String, String>, model: &mut Model) -> (Option<String>, Option<String>) {
+    let (source, req) = &run.sources[i];
+    // documented: where the require leads
+    let mut segs = req.split('/');
+    let name = segs.next().unwrap_or("");
+    let tail: Vec<&str> = segs.filter(|x| !x.is_empty()).collect();
+    let expect = match run.documented_base(source, name) {
+        Some(base) => expect_for(&base, &tail, &run.leaves),
+        None => Expect::UnknownSource,
+    };
+    let mut oracle = None;
+    match (&expect, arg) {
+        (Expect::File(loc), Ok(a)) => {
+            // the new argument, resolved by a fresh locator of the target mode, must be that file
+            let again = Case { mode: run.target.clone(), proj: run.proj.clone(), files: run.leaves.clone(), source: source.clone(), req: a.clone(), expect: None, present: 0, kind: run.kind, ext: "", deco: 0, mask: 0, region: "" };
+            let (text, path) = real_find(&again);
+            match path {
+                Some(p) if &walk(&cwd(), p.to_str().unwrap_or("")) == loc => {}
+                _ => oracle = Some(format!("`{}` from `{}` is documented to reach /{} (nearest .luaurc: {:?}); it was converted to `{}`, which gives `{}`", req, source, loc.join("/"), run.nearest_rc(source).map(|(d, _)| d), a, text)),
+            }
+        }
+        (Expect::File(loc), Err(e)) => oracle = Some(format!("`{}` from `{}` is documented to reach /{}; the run gave <{}>", req, source, loc.join("/"), e)),
+        (_, Ok(a)) => {
+            if a != req {
+                oracle = Some(format!("`{}` from `{}` does not resolve by the documentation, yet it was rewritten to `{}`", req, source, a));
+            }
+        }
+        (_, Err(_)) => {}
+    }
+    let answer = model.ask(&format!(
+        "c15.convrc {} {} {} {} {} {} {}",
+        mode_wire(&run.current),
+        run.rc_wire(source),
+        mode_wire(&run.target),
+        hx(&run.proj),
+        list_wire(&run.leaves),
+        hx(source),
+        hx(req)
+    ));
+    let model_arg = answer.strip_prefix("arg ").and_then(|r| r.split(' ').next()).and_then(crate::model::unhex).map(|b| String::from_utf8_lossy(&b).into_owned());
+    let agrees = match (&model_arg, arg) {
+        (Some(m), Ok(a)) => m == a,
+        (None, Ok(a)) => answer.starts_with("none") && a == req,
+        (_, Err(_)) => false,
+    };
+    let corr = if agrees { None } else { Some(format!("real `{:?}` model `{}`", arg, answer)) };
+    (oracle, corr)
+}
+
+fn rc_leaves(bases: &[&str]) -> Vec<String> {
+    let mut out = Vec::new();
+    for b in bases {
+        let l = walk(&cwd(), b);
+        for rel in [&["m.luau"][..], &["sub", "m", "init.luau"][..], &["util.luau"][..]] {
+            let mut x = l.clone();
+            x.extend(rel.iter().map(|r| (*r).to_owned()));
+            let f = loc_string(&x);
+            if !out.contains(&f) {
+                out.push(f);
+            }
+        }
+    }
+    out
+}
+
+/// single-file runs: the alias comes from a `.luaurc` (root or an ancestor of the requiring file),
+/// crossed with the darklua configuration's location
+fn rc_single_runs() -> Vec<RcRun> {
+    let mut out = Vec::new();
+    for proj in [".", "cfg", "..", "/abs"] {
+        for rc_dir in ["", "src"] {
+            for source in ["src/main.luau", "src/deep/mod.luau", "src/deep/init.luau"] {
+                let rc_base = if rc_dir.is_empty() { s(".") } else { s(rc_dir) };
+                // every directory an alias could be (mis)taken to start from holds the same layout
+                let bases: Vec<String> = vec![
+                    format!("{}/pk", rc_base), format!("{}/../shared", rc_base), format!("{}/pk", proj), format!("{}/../shared", proj),
+                    format!("{}/pk2", proj), format!("{}/other", proj), s("pk"), s("src/pk"),
+                ];
+                let leaves = rc_leaves(&bases.iter().map(String::as_str).collect::<Vec<_>>());
+                let rcs = vec![(s(rc_dir), vec![(s("pkg"), s("./pk")), (s("up"), s("../shared"))])];
+                for (config_aliases, reqs) in [
+                    (vec![], vec!["@pkg/m", "@pkg/sub/m", "@up/util", "@nope/m"]),
+                    (vec![(s("@cfgpkg"), s("./pk2"))], vec!["@cfgpkg/m", "@pkg/m"]),
+                    (vec![(s("@pkg"), s("./other"))], vec!["@pkg/m"]),
+                ] {
+                    for req in reqs {
+                        out.push(RcRun {
+                            proj: s(proj),
+                            current: Mode::Luau { aliases: config_aliases.clone() },
+                            target: Mode::Path { folder: s("init"), sources: vec![] },
+                            leaves: leaves.clone(),
+                            rcs: rcs.clone(),
+                            sources: vec![(s(source), s(req))],
+                            kind: "luaurc-luau->path",
+                        });
+                    }
+                }
+                // path mode falls back to the `.luaurc` aliases when `sources` has no such name
+                let path_source = source.replace(".luau", ".lua");
+                for (config_sources, reqs) in [(vec![], vec!["@pkg/m", "@up/util", "@nope/m"]), (vec![(s("cfgpkg"), s("./pk2"))], vec!["cfgpkg/m", "@pkg/sub/m"])] {
+                    for req in reqs {
+                        out.push(RcRun {
+                            proj: s(proj),
+                            current: Mode::Path { folder: s("init"), sources: config_sources.clone() },
+                            target: Mode::Luau { aliases: vec![] },
+                            leaves: leaves.clone(),
+                            rcs: rcs.clone(),
+                            sources: vec![(path_source.clone(), s(req))],
+                            kind: "luaurc-path->luau",
+                        });
+                    }
+                }
+            }
+        }
+    }
+    out
+}
+
+/// multi-file runs: a root `.luaurc` and a nested one giving the same alias different targets
+/// (and the nested-only / outer-only variants); every file is governed by its NEAREST `.luaurc`
+fn rc_multi_runs() -> Vec<RcRun> {
+    let mut out = Vec::new();
+    let leaves = rc_leaves(&["rootlib", "pkg/lib", "lib", "pkg/rootlib", "cfg/rootlib", "cfg/lib"]);
+    let outer = (s(""), vec![(s("lib"), s("./rootlib"))]);
+    let nested = (s("pkg"), vec![(s("lib"), s("./lib"))]);
+    for proj in [".", "cfg"] {
+        for rcs in [vec![outer.clone(), nested.clone()], vec![nested.clone()], vec![outer.clone()]] {
+            out.push(RcRun {
+                proj: s(proj),
+                current: Mode::Luau { aliases: vec![] },
+                target: Mode::Path { folder: s("init"), sources: vec![] },
+                leaves: leaves.clone(),
+                rcs: rcs.clone(),
+                sources: vec![(s("main.luau"), s("@lib/util")), (s("pkg/a.luau"), s("@lib/util")), (s("pkg/deep/b.luau"), s("@lib/m")), (s("other/c.luau"), s("@lib/util"))],
+                kind: "luaurc-nested-luau->path",
+            });
+            out.push(RcRun {
+                proj: s(proj),
+                current: Mode::Path { folder: s("init"), sources: vec![] },
+                target: Mode::Luau { aliases: vec![] },
+                leaves: leaves.clone(),
+                rcs,
+                sources: vec![(s("main.lua"), s("@lib/util")), (s("pkg/a.lua"), s("@lib/util")), (s("pkg/deep/b.lua"), s("@lib/sub/m"))],
+                kind: "luaurc-nested-path->luau",
+            });
+        }
+    }
+    out
+}
+
+/// run the `.luaurc` obligations; returns violations as (kind, check, what, input, found)
+fn check_rc_run(report: &mut Report, model: &mut Model, run: &RcRun, orders: &[Vec<usize>]) {
+    // every file alone, in a fresh run
+    let alone: Vec<Result<String, String>> = (0..run.sources.len()).map(|i| real_rc_run(run, &[i])[i].clone()).collect();
+    for (i, arg) in alone.iter().enumerate() {
+        report.case(Some(hash_of(&("rcrun", format!("{:?}{:?}", run.current, run.rcs), &run.proj, &run.sources[i])))); 
+        let (oracle, corr) = judge_rc_source(run, i, arg, model);
+        report.hist("luaurc-run", if oracle.is_some() { "fails" } else if arg.as_ref().ok() == Some(&run.sources[i].1) { "left alone" } else { "converted, reaches the documented file" });
+        if let Some(what) = oracle {
+            report.violation(Violation { kind: s("oracle"), check: format!("luaurc-alias-resolution/{}", run.kind), what, input: run.to_json(&[i]), failing_input_found: true });
+        } else if let Some(what) = corr {
+            report.violation(Violation { kind: s("correspondence"), check: format!("luaurc/{}", run.kind), what, input: run.to_json(&[i]), failing_input_found: false });
+        }
+    }
+    // all files in one run, in every given order: the answers must be those of the fresh runs
+    for order in orders {
+        if order.len() < 2 {
+            continue;
+        }
+        let together = real_rc_run(run, order);
+        report.case(Some(hash_of(&("rcrun-order", format!("{:?}{:?}", run.current, run.rcs), &run.proj, order))));
+        for &i in order {
+            if together[i] != alone[i] {
+                let (oracle, _) = judge_rc_source(run, i, &together[i], model);
+                report.violation(Violation {
+                    kind: s("oracle"),
+                    check: format!("luaurc-run-order-independence/{}", run.kind),
+                    what: format!("`{}` from `{}`: processed alone -> {:?}, processed in the order {:?} -> {:?}{}", run.sources[i].1, run.sources[i].0, alone[i], order, together[i], oracle.map(|o| format!(" ({})", o)).unwrap_or_default()),
+                    input: run.to_json(order),
+                    failing_input_found: true,
+                });
+            }
+        }
+    }
+}
+
+// ------------------------------------------------------------------------------------------
 // normalize
 
 fn path_strings(max_len: usize) -> Vec<String> {
@@ -1963,6 +2304,23 @@ A locator case is non-trivial when at least one candidate file exists (the loop 
         }
         report.count("bundle_many_runs", runs);
     }
+    // ---- H. `.luaurc`: aliases read from `.luaurc` files by the real `process`
+    //         (use_luau_configuration on), single-file and multi-file runs
+    {
+        let singles = rc_single_runs();
+        for run in &singles {
+            check_rc_run(report, &mut model, run, &[]);
+        }
+        let multis = rc_multi_runs();
+        for run in &multis {
+            let all: Vec<usize> = (0..run.sources.len()).collect();
+            let orders = permutations(&all);
+            check_rc_run(report, &mut model, run, &orders);
+        }
+        report.count("luaurc_single_runs", singles.len() as u64);
+        report.count("luaurc_multi_runs", multis.len() as u64);
+        report.exhaustive.insert(s("luaurc: nested/outer .luaurc layouts processed in every order of their requiring files"), true);
+    }
     report.count("bundle_cases", pool.len() as u64);
     report.count("convert_cases", conv_cases.len() as u64);
     report.count("locator_labelled_cases", labelled as u64);
@@ -2080,6 +2438,11 @@ fn check_corpus_entry(report: &mut Report, model: &mut Model, v: &Value, known: 
                 if !same {
                     report.violation(Violation { kind: s("oracle"), check: s("corpus/bundle"), what: format!("expected `{}`, bundled `{}`", expect, got), input: input.clone(), failing_input_found: true });
                 }
+            }
+        }
+        Some("rcrun") => {
+            if let Some((run, order)) = RcRun::from_json(input) {
+                check_rc_run(report, model, &run, &[order]);
             }
         }
         Some("hist") => {
